@@ -696,11 +696,17 @@ func ruleErrorProvenance(c *core.Ctx) {
 			"(gopkg.in/yaml.v3.Node).DecodeWithOptions", "(gopkg.in/yaml.v3.Node).Decode", "(gopkg.in/yaml.v3.Decoder).Decode":
 			return true
 		}
-		return inYaml(g) && (strings.HasPrefix(g.Name(), "Unmarshal") || g.Name() == "UnmarshalYAML")
+		// every error-returning function of yaml.go is itself an obligation of this rule (below), so an
+		// error received from one of them is positioned if the rule holds there
+		return inYaml(g) && lastResultIsError(g.Type().(*types.Signature)) && g.Name() != "ParseYamlInDir" && g.Name() != "ParsePackageContents"
 	}
 	for _, d := range c.AllDecls() {
-		if !strings.HasSuffix(c.Fset.Position(d.Pos()).Filename, "/pkg/dsl/yaml.go") || !strings.HasPrefix(d.Name.Name, "Unmarshal") {
+		if !strings.HasSuffix(c.Fset.Position(d.Pos()).Filename, "/pkg/dsl/yaml.go") {
 			continue
+		}
+		fobj, _ := info.Defs[d.Name].(*types.Func)
+		if fobj == nil || !lastResultIsError(fobj.Type().(*types.Signature)) || d.Name.Name == "ParseYamlInDir" || d.Name.Name == "ParsePackageContents" {
+			continue // the two entry points wrap what they receive with the file path themselves
 		}
 		errorReturns(info, d.Body, func(ret *ast.ReturnStmt, e ast.Expr) {
 			if !core.IsErrorType(info.TypeOf(e)) && !positioned(e) {
